@@ -14,7 +14,7 @@ use vmc::r1;
 use vmc::report::{Ctx, Report, Stats};
 use vmc::{fnv, json, Json};
 
-const IGNORE: [&str; 3] = ["unset", "false", "true"];
+const IGNORE: [&str; 5] = ["unset", "false", "true", "true-then-false", "false-then-true"];
 const ROOTS: [&str; 6] = ["none", "correct-pem", "correct-der", "unrelated-pem", "correct-der-ending-in-whitespace", "correct-pem-crlf"];
 const PROTOS: [&str; 3] = ["any", "tls1.2", "tls1.3"];
 
@@ -51,7 +51,8 @@ impl Cell {
     fn expect_accept(&self) -> bool {
         // the certificate matches the name in the target: `valid` carries DNS:localhost, kind 5 carries IP:127.0.0.1
         let matches_host = (self.cert == 0 && self.host == 0) || (self.cert == 5 && self.host == 1);
-        self.ignore == 2 || (matches!(self.root, 1 | 2 | 4 | 5) && matches_host)
+        // the caller's LAST word counts: true-then-false verifies, false-then-true ignores
+        matches!(self.ignore, 2 | 4) || (matches!(self.root, 1 | 2 | 4 | 5) && matches_host)
     }
 }
 
@@ -139,9 +140,14 @@ fn run_cell(c: &Cell, pki: &Pki, rt: &tokio::runtime::Runtime, st: &mut Stats) {
     let mut cfg = Config::default();
     cfg.ignore_tls = match c.ignore {
         0 => None,
-        1 => Some(false),
+        1 | 4 => Some(false),
         _ => Some(true),
     };
+    match c.ignore {
+        3 => cfg.ignore_tls_then.push(false),
+        4 => cfg.ignore_tls_then.push(true),
+        _ => {}
+    }
     match c.root {
         1 => cfg.ca_certs.push(pki.ca.cert.to_pem().unwrap()),
         2 => cfg.ca_certs.push(pki.ca.cert.to_der().unwrap()),
@@ -215,7 +221,7 @@ fn cells(ctx: &Ctx) -> Vec<Cell> {
     let mut v = vec![];
     for proto in protos {
         for client in 0..2 {
-            for ignore in 0..3 {
+            for ignore in 0..IGNORE.len() {
                 for root in 0..ROOTS.len() {
                     for cert in 0..5 {
                         v.push(Cell { client, ignore, root, cert, proto, host: 0 });
@@ -320,7 +326,7 @@ pub fn run(ctx: &Ctx) -> ! {
     let mut rep = Report::new(
         ctx,
         "exploration",
-        "the complete matrix {blocking, async} x {native-tls, rustls} (two builds) x ignore flag {unset, false, true} x extra root {none, correct CA as PEM, as DER, unrelated CA, correct CA as a DER encoding whose last octet is ASCII white space (same anchor re-signed until it is), correct CA as PEM with CRLF line ends} x server certificate {valid for localhost, wrong host name, expired, self-signed, issued by an unknown CA} (target names `localhost`) + {certificate for IP 127.0.0.1 with target localhost, the same with target 127.0.0.1, certificate for localhost with target 127.0.0.1} = 576 configurations (thorough: x {TLS 1.2, TLS 1.3} forced on the peer = 1152), each a real handshake of a real Get-Printer-Attributes request against the loopback TLS peer (openssl acceptor, certificates minted at run time). plus, per backend, every ORDERED pair of an 8-configuration subset per client (128 pairs), each pair run sequentially in a fresh process (history: process-wide state left by the first client must not change the second's verdict). Oracle: accepted <=> ignore = true or (root is the correct CA in any of its four encodings and certificate valid); on rejection send() = Err AND zero application bytes reached the peer. distinct = configuration",
+        "the complete matrix {blocking, async} x {native-tls, rustls} (two builds) x ignore flag {unset, false, true, true-then-false, false-then-true on one builder} x extra root {none, correct CA as PEM, as DER, unrelated CA, correct CA as a DER encoding whose last octet is ASCII white space (same anchor re-signed until it is), correct CA as PEM with CRLF line ends} x server certificate {valid for localhost, wrong host name, expired, self-signed, issued by an unknown CA} (target names `localhost`) + {certificate for IP 127.0.0.1 with target localhost, the same with target 127.0.0.1, certificate for localhost with target 127.0.0.1} = 960 configurations (thorough: x {TLS 1.2, TLS 1.3} forced on the peer = 1920), each a real handshake of a real Get-Printer-Attributes request against the loopback TLS peer (openssl acceptor, certificates minted at run time). plus, per backend, every ORDERED pair of an 8-configuration subset per client (128 pairs), each pair run sequentially in a fresh process (history: process-wide state left by the first client must not change the second's verdict). Oracle: accepted <=> the last ignore_tls_errors call said true or (root is the correct CA in any of its four encodings and certificate valid); on rejection send() = Err AND zero application bytes reached the peer. distinct = configuration",
     );
     rep.assume("localhost resolves to 127.0.0.1; the test CA is never in the system trust store");
     if let Some(p) = &ctx.replay {
